@@ -38,3 +38,27 @@ def g1(n):
     while t < n:
         t += 1
         yield (t, t < 2)
+class Res:
+    def __init__(self, tag):
+        self.tag = tag
+        self.log = []
+    def __enter__(self):
+        self.log.append("enter")
+        return self
+    def __exit__(self, *a):
+        self.log.append("exit")
+        return False
+def g2(n):
+    out = []
+    for i in range(n):
+        with Res(("g2", i)) as res:
+            yield (res.tag, len(res.log))
+            out.append(res.log)
+    yield out
+def w3(n):
+    acc = []
+    for i in range(n):
+        with Res(("w3", i)) as res:
+            acc.append(helper(i, 1))
+            acc.append(len(res.log))
+    return acc
